@@ -120,6 +120,41 @@ def gen_def(rng, stats):
             return d
 
 
+def lone_family():
+    """ONE object definition per kind at most — an instance can still collide with another instance of the SAME object
+    ("so an object can collide with itself"): its own repeat with stride 0 or a stride smaller than nothing, an enclosing
+    repeated block whose stride is smaller than the span of the object's own repeat, a block and a block ref placed on
+    the same offset; each with and without ALLOW_ADDRESS_OVERLAP and with bystanders of the OTHER kinds (seed C12-7 skipped
+    the whole analysis when no kind had two object definitions)."""
+    out = []
+    cfg = lambda: adef.mk_config(register_address_type="i32", command_address_type="i32", buffer_address_type="i32")
+
+    def leaf(kind, allow, rep):
+        if kind == "register":
+            return adef.mk_register("Solo", 4, 8, ac.small_field(), repeat=rep, allow_address_overlap=allow or None)
+        return adef.mk_command("Solo", 4, repeat=rep, allow_address_overlap=allow or None)
+
+    for kind in ("register", "command"):
+        others = [adef.mk_buffer("Byb", 4)] + ([adef.mk_command("Byc", 4)] if kind == "register" else
+                                                [adef.mk_register("Byr", 4, 8, ac.small_field())])
+        for allow in (False, True):
+            for with_others in (False, True):
+                extra = others if with_others else []
+                # own repeat, stride 0 (count 2 and 3) and a harmless one
+                for rep in ({"count": 2, "stride": 0}, {"count": 3, "stride": 0}, {"count": 3, "stride": 2}, {"count": 1, "stride": 0}):
+                    out.append({"config": cfg(), "objects": [leaf(kind, allow, rep)] + extra})
+                # repeated block whose stride is smaller than / equal to / larger than the span of the inner repeat
+                for bstride in (0, 2, 4, 6, 8):
+                    blk = adef.mk_block("Blk", [leaf(kind, allow, {"count": 4, "stride": 2})], address_offset=16,
+                                        repeat={"count": 2, "stride": bstride})
+                    out.append({"config": cfg(), "objects": [blk] + extra})
+                # the block and a ref to it: same offset, different offset
+                for off in (16, 17, 100):
+                    blk = adef.mk_block("Blk", [leaf(kind, allow, None)], address_offset=16)
+                    out.append({"config": cfg(), "objects": [blk, adef.mk_ref("Blr", "Blk", {"kind": "block", "address_offset": off})] + extra})
+    return out
+
+
 def exhaustive_family():
     """every ordered pair of leaf forms x flags at equal / different address"""
     forms = []
@@ -210,7 +245,7 @@ def run(ctx):
                 cid = "k" + f[:-5]
                 defs[cid] = (d["adef"], d.get("syntax", "dsl"))
                 items.append((cid, d["adef"], d.get("syntax", "dsl"), adef.render(d["adef"], d.get("syntax", "dsl"))))
-    for i, d in enumerate(exhaustive_family()):
+    for i, d in enumerate(exhaustive_family() + lone_family()):
         cid = f"x{i}"
         defs[cid] = (d, "dsl")
         items.append((cid, d, "dsl", adef.render(d, "dsl")))
@@ -220,7 +255,7 @@ def run(ctx):
         sx = rng.choice(["dsl", "dsl", "dsl", "json", "yaml", "toml"])
         cid = f"c{i}"
         defs[cid] = (d, sx)
-        items.append((cid, d, sx, adef.render(d, sx, rng)))
+        items.append((cid, d, sx, adef.render(ac.respell_refs(d, rng), sx, rng)))
         stats["syntax_" + sx] += 1
     fn = fn_name()
     res = ac.run_batch(ctx, exe, items, fn, tag="c12")
@@ -268,7 +303,7 @@ def run(ctx):
     vlib.write_evidence(ctx, info, {
         "evaluations": len(items), "distinct_nontrivial": len(distinct), "rule": RULE, "samples": samples,
         "input_distribution": dict(stats), "outcomes": dict(outcome_hist), "accepted_ratio": round(acc, 3),
-        "verdicts": dict(verdicts), "exhaustive": False, "exhaustive_family": {"family": "pairs of leaf forms x flags x equal/different address",
+        "verdicts": dict(verdicts), "exhaustive": False, "exhaustive_family": {"family": "pairs of leaf forms x flags x equal/different address + lone-object self-collision family",
                                                    "cases": nex, "complete": True},
         "model_variant": "fx=" + ac.fx_flag(), "disagreements": len(bad)})
 
